@@ -11,9 +11,10 @@
 
    The full statement is FALSE of the code as it is (C20_refuted, one witness per class of difference: the
    known findings F9(a)-(j); each witness is replayed on the two real loops by the check).
+   It HOLDS on a decidable fragment of sessions (C20_agree_partial).
    Only theorem statements here; every proof is [exact] of a lemma in proofs/C20Proofs.v. *)
 From Coq Require Import ZArith NArith List Bool.
-From SL Require Import LoopSem LoopProg GLibSem drv.Drv_loop proofs.C20Proofs.
+From SL Require Import LoopSem LoopProg GLibSem GLibFrag drv.Drv_loop proofs.C20Proofs proofs.C20Sim.
 Import ListNotations.
 
 (* the universally quantified statement of C20, on the handler/mark sequence alone, does not hold *)
@@ -70,6 +71,49 @@ Proof.
         (conj refuted_wait_finishes_batch (conj refuted_handlers_bound_at_enqueue refuted_close_last_level)))))))).
 Qed.
 
+(* ---- agreement on a fragment (partial) ----
+   [in_fragment] (GLibFrag.v) is decidable: it runs the session on the MainLoop model with state checks at the points
+   where the two loops are known to part: one signal pending per level at a time, its class has a handler when it is
+   enqueued, no handler ends with an ordinary exception, ExitMainLoop only with no nested loop open, close_loop only
+   inside a nested loop with nothing left to drain and once per dispatch, no execute_new_loop after a close_loop in
+   the same dispatch, no force_quit / process_signals / submissions from other threads.
+   For every handler code over every user state, every fuel and every list of top-level calls in the fragment, the
+   GLibEventLoop model (given enough fuel, and any larger amount) ends every top-level call with the same outcome and
+   produces the same EHandler/EMark sequence up to the quit.  Proved by a simulation relation between lstate (queues)
+   and gstate (contexts), proofs/C20Sim.v. *)
+Theorem C20_agree_partial : forall U (code : nat -> signal -> nat -> prog U) fuel acts u,
+  in_fragment code fuel acts u = true ->
+  exists fuel', forall fuel'', fuel' <= fuel'' ->
+    fst (grun_session false code fuel'' acts (ginit_state u)) = fst (run_session code fuel acts (init_state u)) /\
+    hseq (gtrace (snd (grun_session false code fuel'' acts (ginit_state u)))) =
+    hseq (trace (snd (run_session code fuel acts (init_state u)))).
+Proof. exact (@agree_partial_gen). Qed.
+
+(* the same for sessions written in the command language of the harness *)
+Theorem C20_agree_partial_sessions : forall bodies acts fuel,
+  in_fragment (handler_prog bodies) fuel (map top_of acts) [] = true ->
+  exists fuel', forall fuel'', fuel' <= fuel'' -> glib_obs bodies acts fuel'' = main_obs bodies acts fuel.
+Proof. exact agree_partial. Qed.
+
+(* [fexec], the checked interpreter behind [in_fragment], only adds checks: where it answers, it answers as [exec] *)
+Theorem C20_fragment_is_mainloop : forall U (code : nat -> signal -> nat -> prog U) f c s o s',
+  fexec code f c s = Some (o, s') -> exec code f c s = (o, s').
+Proof. exact (@fexec_is_exec). Qed.
+
+(* non-vacuity: the six scheduler scenarios are in the fragment, the refutation witnesses are not *)
+Example C20_fragment_nonempty :
+  in_fragment (handler_prog s_replace_screen_bodies) 200 (map top_of s_acts) [] = true /\
+  in_fragment (handler_prog s_switch_screen_bodies) 200 (map top_of s_acts) [] = true /\
+  in_fragment (handler_prog s_modal_in_render_bodies) 200 (map top_of s_acts) [] = true /\
+  in_fragment (handler_prog s_modal_in_refresh_bodies) 200 (map top_of s_acts) [] = true /\
+  in_fragment (handler_prog s_modal_refresh_and_render_bodies) 200 (map top_of s_acts) [] = true /\
+  in_fragment (handler_prog s_modal_render_recursive_bodies) 200 (map top_of s_acts) [] = true /\
+  in_fragment (handler_prog w_a_bodies) 200 (map top_of w_a_acts) [] = false /\
+  in_fragment (handler_prog w_b_bodies) 200 (map top_of w_b_acts) [] = false /\
+  in_fragment (handler_prog w_c_bodies) 200 (map top_of w_c_acts) [] = false /\
+  in_fragment (handler_prog w_d_bodies) 200 (map top_of w_d_acts) [] = false.
+Proof. exact example_fragment. Qed.
+
 (* agreement on the six scenarios of tests/units/main/screen_scheduler_test.py translated to the loop API *)
 Example C20_scenario_replace_screen : agree s_replace_screen_bodies s_acts 200.
 Proof. exact example_agree_replace_screen. Qed.
@@ -94,3 +138,6 @@ Print Assumptions C20_refuted_exit_batch_continues.
 Print Assumptions C20_refuted_close_no_drain.
 Print Assumptions C20_refuted_mark_after_handlers.
 Print Assumptions C20_refuted_more.
+Print Assumptions C20_agree_partial.
+Print Assumptions C20_agree_partial_sessions.
+Print Assumptions C20_fragment_is_mainloop.
